@@ -927,8 +927,15 @@ class Manager:
         """
         # process tasks
         if self._tasks:
-            for task in self._tasks.copy():
-                self.processTask(*task)
+            # (events fired by the steps of generator handlers are effects of
+            # their events also when tick() is the application's own main loop)
+            old_flushing = self._flushing_thread
+            try:
+                self._flushing_thread = current_thread()
+                for task in self._tasks.copy():
+                    self.processTask(*task)
+            finally:
+                self._flushing_thread = old_flushing
 
         if self._running:
             self.fire(generate_events(self._lock, timeout), '*')
